@@ -4,6 +4,7 @@
    only freedom.  Values are exact (integers; tolerances p/q). *)
 From Coq Require Import List ZArith Bool Permutation Lia.
 From Yv Require Import Linalg.Trunc Linalg.TruncLaws.
+From Yv Require Base.Deleg Gen.DelegGen.
 Import ListNotations.
 Open Scope Z_scope.
 
@@ -57,9 +58,15 @@ Proof.
     destruct a as [|[|[|[|a]]]]; destruct b as [|[|[|[|b]]]]; simpl; try lia.
 Qed.
 
+(* --- options are handed down under their own names (facts regenerated from the source on every run by tools/translate/tr_deleg.py): the truncating decompositions pass every limit (tol, tol_block, D_block, D_total, truncate_multiplets, mask_f) and every option of eigh on under its own name --- *)
+Theorem C13_options_forwarded :
+  Deleg.deleg_ok Deleg.pre_linalg DelegGen.delegations DelegGen.allowed = true /\ Nat.ltb 0 (Deleg.n_facts Deleg.pre_linalg DelegGen.delegations) = true.
+Proof. split; vm_compute; reflexivity. Qed.
+
 Print Assumptions C13_block_limit.
 Print Assumptions C13_global_limit.
 Print Assumptions C13_maximal.
 Print Assumptions C13_stage_shape.
 Print Assumptions C13_nonbinding.
 Print Assumptions C13_error_identity.
+Print Assumptions C13_options_forwarded.
